@@ -82,6 +82,7 @@ class PinWorld:
         self.switch_busy_until = {}
         self.ambiguous_reentries = 0
         self.ambiguous_devs = set()
+        self.uncountable_devs = set()   # devices whose count MPF cannot get right for a sensing reason (see _enter)
         self.reentry_at_timeout = 0
         self.exact_late_arrivals = 0
         self.late_targets = set()       # devices that received (or are to receive) a ball later than the eject timeout
@@ -378,6 +379,18 @@ class PinWorld:
                 self._switch(sw, 1)
         elif info.entrance_switch is not None:
             ball.switch = None
+            if info.entrance_full_timeout and not fell_back:
+                # a ball that crosses the entrance switch of a 'last ball rests on the switch' device while that device's
+                # own eject is under way cannot be told from the bounce of the resting ball rolling off the switch (MPF's
+                # unit tests pin that such activations are not counted): a sensing limit, not a controller fault
+                for e in reversed(self.eject_log):
+                    if self.sim.now - e["t"] > 2.0:
+                        break
+                    if e["dev"] == info.name and e["ball"] is not None:
+                        self.uncountable_devs.add(info.name)
+                        self.ambiguous_reentries += 1
+                        self.ctx.probe("entrance_arrival_during_own_eject")
+                        break
             if info.entrance_full_timeout and self.count(info.name) >= info.capacity:
                 ball.switch = info.entrance_switch
                 self._switch(info.entrance_switch, 1)
